@@ -412,6 +412,16 @@ def judge(case, res, want_cert_data=False):
             want = [x for j in range(3) for x in (float(Vf[:, j].min()), float(Vf[:, j].max()))]
             if [float(x) for x in rb["root_aabb"]] != want:
                 fails.append(f"RigidBody.aabb() {rb['root_aabb']} != bounds of the (body frame) vertices {want}")
+    # 5b. hypotheses of the universal theorems on the actual rim / ring / profile points (exact rationals):
+    #     cylinder: consecutive rim points counter-clockwise, angular sectors do not overlap (C17_cylinder_volumes/_disjoint);
+    #     capsule: ring counter-clockwise, cap profile rho > 0 and counter-clockwise, circle 0 above the medial point
+    try:
+        hyp = theorem_hypotheses(case, res)
+    except Exception as e:  # noqa: BLE001
+        hyp = [f"hypothesis check crashed: {type(e).__name__}: {e}"]
+    if hyp:
+        fails += hyp
+    st["theorem_hypotheses_checked"] = name in ("cylinder", "capsule")
     # 6. histories on one RigidBody: every read agrees with a direct computation on the CURRENT vertices
     if res.get("history") is not None:
         fails += judge_history(case, res, E)
@@ -505,3 +515,85 @@ def judge_history(case, res, E):
                     break
         prevV, prevT = V, T
     return fails
+
+
+def _cross(p, q):
+    return p[0] * q[1] - p[1] * q[0]
+
+
+def theorem_hypotheses(case, res):
+    name = case["factory"]
+    V = res["vertices"]
+    out = []
+    if name == "cylinder":
+        nv = len(V) // 3
+        # outer vertices: 2 centres, then (bottom_i, top_i) pairs; medial vertices follow (1, 2 or 1 + n)
+        zb = Fraction(V[2])
+        n = 0
+        while 2 + 2 * n + 1 < nv and Fraction(V[3 * (2 + 2 * n) + 2]) == zb and Fraction(V[3 * (3 + 2 * n) + 2]) == -zb:
+            n += 1
+        # the short class appends n medial vertices at z = 0: never confused with rim vertices (z = +-top_z != 0)
+        rim = [(Fraction(V[3 * (2 + 2 * i)]), Fraction(V[3 * (2 + 2 * i) + 1])) for i in range(n)]
+        if n < 3:
+            return [f"cylinder: could not identify the rim vertices (n = {n})"]
+        pairs = [((i - 1) % n, i) for i in range(n)]
+        for (i, j) in pairs:
+            if _cross(rim[i], rim[j]) <= 0:
+                out.append(f"cylinder rim not counter-clockwise at sector ({i}, {j})")
+                return out
+        if n <= 64:
+            for a in range(n):
+                i, j = pairs[a]
+                for b in range(a + 1, n):
+                    k, l = pairs[b]
+                    ok = False
+                    for u in (rim[i], rim[j], rim[k], rim[l]):
+                        for sg in (1, -1):
+                            uu = (sg * u[0], sg * u[1])
+                            if (_cross(uu, rim[i]) <= 0 and _cross(uu, rim[j]) <= 0
+                                    and _cross(uu, rim[k]) >= 0 and _cross(uu, rim[l]) >= 0):
+                                ok = True
+                                break
+                        if ok:
+                            break
+                    if not ok:
+                        out.append(f"cylinder sectors ({i}, {j}) and ({k}, {l}) overlap (no separating line through the axis)")
+                        return out
+    elif name == "capsule":
+        nv = len(V) // 3
+        a = case["args"]
+        n = int(np.clip(2.0 * np.pi * float(a["radius"]) / float(a["resolution_hint"]), 3.0, 706.0))
+        nc = n // 2
+        if nv != 4 + 2 * n * nc:
+            return [f"capsule: {nv} vertices, expected {4 + 2 * n * nc}"]
+        mtz = Fraction(V[2])
+
+        def top(i, j):
+            k = 4 + 2 * (i * n + j)
+            return Fraction(V[3 * k]), Fraction(V[3 * k + 1]), Fraction(V[3 * k + 2])
+        ring = [top(0, j)[:2] for j in range(n)]
+        for j in range(n):
+            if _cross(ring[j], ring[(j + 1) % n]) <= 0:
+                return [f"capsule ring not counter-clockwise at ({j}, {(j + 1) % n})"]
+        # profile along ring direction 0: rho_i^2 = x^2 + y^2 (compare squares), zeta_i = z - mtz
+        prof = [(top(i, 0)[0] ** 2 + top(i, 0)[1] ** 2, top(i, 0)[2] - mtz) for i in range(nc)]
+        if any(r2 <= 0 for r2, _ in prof):
+            return ["capsule profile: rho = 0"]
+        if prof[0][1] + mtz <= 0:
+            return ["capsule profile: circle 0 not above the medial plane"]
+        for i in range(nc - 1):
+            (r2, z), (r2n, zn) = prof[i], prof[i + 1]
+            # rho * zn - rhon * z > 0  with rho = sqrt(r2) > 0, rhon = sqrt(r2n) > 0
+            lhs_pos, rhs_pos = zn >= 0, z >= 0          # sign of rho*zn and rhon*z
+            A, B = r2 * zn * zn, r2n * z * z            # squares of the two products
+            if lhs_pos and not rhs_pos:
+                good = True
+            elif not lhs_pos and rhs_pos:
+                good = False
+            elif lhs_pos and rhs_pos:
+                good = A > B
+            else:
+                good = A < B
+            if not good:
+                return [f"capsule cap profile not counter-clockwise between circles {i} and {i + 1}"]
+    return out
